@@ -1,0 +1,60 @@
+//go:build verif
+
+package otp
+
+import (
+	"hash"
+	"sync"
+)
+
+// Verification hooks. Compiled only with -tags verif; never part of a normal build.
+// They expose internals read-only (or as an explicit environment seam) so that an
+// external harness can enumerate the truncation/formatting stage exhaustively,
+// choose the HMAC output flowing through the real pipeline, and play the
+// adversary on the scratch-buffer pools.
+
+// VerifSetHMAC replaces the HMAC constructor of one algorithm and returns a
+// function restoring the original. It is an environment seam: the harness picks
+// the "HMAC output" while the real derivation pipeline runs unchanged.
+func VerifSetHMAC(algo Algorithm, ctor func(key []byte) hash.Hash) (restore func()) {
+	old := hmacPools[algo].new
+	hmacPools[algo].new = ctor
+	return func() { hmacPools[algo].new = old }
+}
+
+// VerifTruncate calls the dynamic-truncation routine.
+func VerifTruncate(sum []byte, mod uint64) uint32 { return truncate(sum, mod) }
+
+// VerifShortDigit calls the formatter used for up to 8 digits.
+func VerifShortDigit(v uint32, digits int) string { return shortDigit(v, digits) }
+
+// VerifLongDigit calls the formatter used for more than 8 digits.
+func VerifLongDigit(v uint32, digits int) string { return longDigit(v, digits) }
+
+// VerifFormatDecimal calls the OCRA formatter.
+func VerifFormatDecimal(v uint32, digits int) string { return formatDecimal(v, digits) }
+
+// VerifMod10 returns a copy of the per-digit modulus table.
+func VerifMod10() []uint64 { return append([]uint64(nil), mod10[:]...) }
+
+// VerifPadBytes calls the padding helper.
+func VerifPadBytes(in []byte, n int) []byte { return padBytes(in, n) }
+
+// VerifPools returns pointers to the two scratch-buffer pools.
+func VerifPools() (rfc4226 *sync.Pool, rfc6287 *sync.Pool) {
+	return &rfc4226BufPool, &rfc6287BufPool
+}
+
+// VerifKnownSuites returns a copy of the suite registry.
+func VerifKnownSuites() map[string]SuiteConfig {
+	out := make(map[string]SuiteConfig, len(knownSuites))
+	for k, v := range knownSuites {
+		out[k] = v
+	}
+	return out
+}
+
+// VerifDeriveRFC4226 calls the internal HOTP derivation on raw key bytes.
+func VerifDeriveRFC4226(secret []byte, counter uint64, digits int, algo Algorithm) (string, error) {
+	return deriveRFC4226(secret, counter, digits, algo)
+}
